@@ -2,6 +2,7 @@ package c14
 
 import (
 	"bytes"
+	"crypto/ecdsa"
 	"crypto/rand"
 	"crypto/sha256"
 	"crypto/x509/pkix"
@@ -10,6 +11,9 @@ import (
 	"io"
 	"math/big"
 
+	"github.com/emmansun/gmsm/sm2"
+	"github.com/emmansun/gmsm/sm9"
+	"github.com/emmansun/gmsm/smx509"
 	"verifh/mon"
 )
 
@@ -219,7 +223,99 @@ func decoded(c *mon.Case, what string, s *subject, got any, err error, wantType 
 		c.Fail("mismatch", "%s: decode(encode(key %s)) is a different key: %s", what, s.label, msg)
 		return false
 	}
+	secondGeneration(c, what, s, got)
 	return true
+}
+
+// secondGeneration: the key object a decoder returned is itself "a key the library can hold", whatever container it
+// came from (a raw SM9 user key carries no master public key, a SEC1 key was rebuilt from its scalar, ...). It is
+// written again, by every encoder that takes its type, and what comes out must decode to the same subject. An encoder
+// may refuse an object that lacks what the container needs (counted); it may not panic and it may not write a
+// container that decodes to something else.
+func secondGeneration(c *mon.Case, from string, s *subject, got any) {
+	type codec struct {
+		name string
+		enc  func() ([]byte, error)
+		dec  func([]byte) (any, error)
+	}
+	l := []codec{{"smx509.MarshalPKCS8PrivateKey -> smx509.ParsePKCS8PrivateKey",
+		func() ([]byte, error) { return smx509.MarshalPKCS8PrivateKey(got) },
+		func(b []byte) (any, error) { return smx509.ParsePKCS8PrivateKey(b) }}}
+	switch k := got.(type) {
+	case *sm2.PrivateKey:
+		l = append(l, codec{"smx509.MarshalSM2PrivateKey -> ParseSM2PrivateKey", func() ([]byte, error) { return smx509.MarshalSM2PrivateKey(k) },
+			func(b []byte) (any, error) { return smx509.ParseSM2PrivateKey(b) }})
+	case *ecdsa.PrivateKey:
+		l = append(l, codec{"smx509.MarshalECPrivateKey -> ParseECPrivateKey", func() ([]byte, error) { return smx509.MarshalECPrivateKey(k) },
+			func(b []byte) (any, error) { return smx509.ParseECPrivateKey(b) }})
+	case *sm9.SignMasterPrivateKey:
+		l = append(l, codec{"MarshalASN1 -> UnmarshalSignMasterPrivateKeyASN1", k.MarshalASN1,
+			func(b []byte) (any, error) {
+				g, err := sm9.UnmarshalSignMasterPrivateKeyASN1(b)
+				return nilIfErr(g, err), err
+			}})
+	case *sm9.EncryptMasterPrivateKey:
+		l = append(l, codec{"MarshalASN1 -> UnmarshalEncryptMasterPrivateKeyASN1", k.MarshalASN1,
+			func(b []byte) (any, error) {
+				g, err := sm9.UnmarshalEncryptMasterPrivateKeyASN1(b)
+				return nilIfErr(g, err), err
+			}})
+	case *sm9.SignPrivateKey:
+		l = append(l,
+			codec{"MarshalASN1 -> UnmarshalSignPrivateKeyASN1", k.MarshalASN1,
+				func(b []byte) (any, error) {
+					g, err := sm9.UnmarshalSignPrivateKeyASN1(b)
+					return nilIfErr(g, err), err
+				}},
+			codec{"MarshalCompressedASN1 -> UnmarshalSignPrivateKeyASN1", k.MarshalCompressedASN1,
+				func(b []byte) (any, error) {
+					g, err := sm9.UnmarshalSignPrivateKeyASN1(b)
+					return nilIfErr(g, err), err
+				}},
+			codec{"Bytes -> UnmarshalSignPrivateKeyRaw", func() ([]byte, error) { return k.Bytes(), nil },
+				func(b []byte) (any, error) { g, err := sm9.UnmarshalSignPrivateKeyRaw(b); return nilIfErr(g, err), err }})
+	case *sm9.EncryptPrivateKey:
+		l = append(l,
+			codec{"MarshalASN1 -> UnmarshalEncryptPrivateKeyASN1", k.MarshalASN1,
+				func(b []byte) (any, error) {
+					g, err := sm9.UnmarshalEncryptPrivateKeyASN1(b)
+					return nilIfErr(g, err), err
+				}},
+			codec{"MarshalCompressedASN1 -> UnmarshalEncryptPrivateKeyASN1", k.MarshalCompressedASN1,
+				func(b []byte) (any, error) {
+					g, err := sm9.UnmarshalEncryptPrivateKeyASN1(b)
+					return nilIfErr(g, err), err
+				}},
+			codec{"Bytes -> UnmarshalEncryptPrivateKeyRaw", func() ([]byte, error) { return k.Bytes(), nil },
+				func(b []byte) (any, error) {
+					g, err := sm9.UnmarshalEncryptPrivateKeyRaw(b)
+					return nilIfErr(g, err), err
+				}})
+	}
+	for _, cd := range l {
+		var der []byte
+		var err error
+		var g any
+		w := fmt.Sprintf("second generation: the %s returned by [%s], written by %s", typeName(got), from, cd.name)
+		if !c.Call(w, func() { der, err = cd.enc() }) {
+			continue
+		}
+		c.Event("second_generation_encodings", 1)
+		if err != nil {
+			c.Event("second_generation_encoder_refused/"+typeName(got), 1)
+			continue
+		}
+		if !c.Call(w+" (decoding)", func() { g, err = cd.dec(der) }) {
+			continue
+		}
+		if err != nil {
+			c.Fail("reject", "%s: the library refuses the container it wrote: %v", w, err)
+			continue
+		}
+		if msg := sameKeyAny(s, g); msg != "" {
+			c.Fail("mismatch", "%s: decodes to a different key than %s: %s", w, s.label, msg)
+		}
+	}
 }
 
 func decodedPub(c *mon.Case, what string, s *subject, got any, err error) bool {
